@@ -1,6 +1,7 @@
 /-
   Line handler for C02: `c02 CFG NODE V TABLE` → "<model verdict>\t<spec verdict>\t<reason>"
   (verdict = ok | err; reason = failure-class hint used when the two differ).
+  model: the container over what it SEES of its members (`c.env`); spec: the law over the members' OWN verdicts (`c.own`).
 -/
 import Gozod.Model.Containers
 import Gozod.Model.ContainersSpec
@@ -15,7 +16,10 @@ def handle (ts : List String) : String :=
   | none => "bad-op"
   | some c =>
     let m := (run c.cfg c.env c.node c.input).isOk
-    let s := Spec.accepts c.env c.node c.input
-    s!"{verdict m}\t{verdict s}\t{Spec.reason c.env c.node c.input}"
+    let s := Spec.accepts c.own c.written c.input
+    -- a member the container cannot call, whose own verdict would have changed the composite's
+    let why := if !c.skip.isEmpty && Spec.accepts c.env c.node c.input != s then "member-schema-never-asked"
+               else Spec.reason c.own c.written c.input
+    s!"{verdict m}\t{verdict s}\t{why}"
 
 end Gozod.Drv.C02
